@@ -34,13 +34,16 @@ CHECKS = {
                      "(requantisation_end_to_end, conv_output_stage_is_reference); the per-element elementwise ADD / SUB / MUL value equals "
                      "the reference AddElementwise / SubElementwise / Mul for all 8-bit operands; the table look-up reads inside the LUT "
                      "footprint of the hardware model. Executed: an extracted Gallina semantics of DMA, convolution, depthwise, pooling, "
-                     "elementwise (add, sub, mul, min, max; broadcast, scalar, reversed operands), 8-bit table look-up, IFM resampling, "
+                     "elementwise (add, sub, mul, min, max, abs, clz, shr, shl; broadcast, scalar, reversed operands; 8, 16 and 32 bit), "
+                     "reduce-sum, 8-bit and 32-bit table look-up, IFM resampling, "
                      "8 / 16 / 32-bit feature maps, one and two cores, consuming exactly what the output file stores (command words, weight "
                      "streams through the reference-decoder and traversal models of C07, scale records, zero points, rounding modes, "
                      "clamps) runs the command streams of compiled generated networks and a corpus on random and fixed inputs; outputs are "
                      "compared bit for bit (one step for padded average pools, bilinear resize, mean, table activations, uint8 rescaling "
-                     "concatenation) with a transcription of the TFLite reference kernels evaluated on the SOURCE model. Not executed: "
-                     "softmax, 16-bit elementwise / table operators, networks with CPU operators in the output.",
+                     "concatenation, softmax, squared difference, MUL+MAX leaky ReLU) with a transcription of the TFLite reference kernels "
+                     "evaluated on the SOURCE model; output models with CPU operators are run operator by operator over one simulated "
+                     "arena (CPU-only kernels uninterpreted, the same stand-in on both sides). Not executed: 16-bit table operators, "
+                     "ARG_MAX, LSTM.",
                 note=TB + "; the datapath semantics in hw/NpuExec.v (readings listed in DESIGN.md 10.1b) and tools/refnet.py (reference kernels) "
                      "are transcriptions, trusted; sampled networks and inputs"),
     "C02": dict(cat="translation_validation", ref="7/C02", technique="Coq-proved validator (check_bounds_sound) run on decoded command streams of real compilations",
